@@ -256,3 +256,35 @@ package scanner
 //@ props C16
 //@ pure
 //@ ensures [selects-no-precertificate] !result
+
+// The scan's wiring (C16): every matcher worker reads the one channel the flattening callback writes
+// to and is handed the caller's two callbacks; the fetch runs with that flattening callback under the
+// caller's context; a tree head that cannot be fetched, or a failed fetch, ends the scan with an error.
+//@ func (*Scanner).ScanLog$2
+//@ props C16
+//@ modifies nothing
+//@ frame-trusted a matcher worker writes only the scanner's counters (atomically) and what the callbacks write
+//@ site matcherJob#1 as mj
+//@ requires s != nil && foundCert != nil && foundPrecert != nil
+//@ ensures [every-started-worker-runs-the-matcher-loop] mj.called
+//@ at mj assert [on-the-shared-channel-with-the-callers-callbacks] mj.s == s && mj.entries == entries && mj.foundCert == foundCert && mj.foundPrecert == foundPrecert
+
+//@ func (*Scanner).ScanLog
+//@ props C16
+//@ may panic
+//@ site Prepare#1 as pr
+//@ site Run#1 as run
+//@ site ScanLog$2#1 as wk
+//@ stable-field s.fetcher s.fetcher.opts s.fetcher.client
+//@ requires s != nil && s.fetcher != nil && s.fetcher.opts != nil && s.fetcher.client != nil && ctx != nil && foundCert != nil && foundPrecert != nil
+//@ requires [options-a-caller-may-pass: a positive batch size and non-negative indices] s.fetcher.opts.BatchSize >= 1 && s.fetcher.opts.StartIndex >= 0 && s.fetcher.opts.EndIndex >= 0
+//@ ensures [no-tree-head-no-scan] pr.res1 != nil ==> result1 == pr.res1 && !run.called
+//@ ensures [a-failed-fetch-fails-the-scan] run.called && run.res != nil ==> result1 == run.res
+//@ at run assert [the-fetch-runs-under-the-callers-context] run.f == s.fetcher && run.ctx == ctx
+//@ at wk assert [workers-get-the-callers-callbacks-and-the-channel-the-fetch-feeds] wk.s == s && wk.foundCert == foundCert && wk.foundPrecert == foundPrecert && wk.entries == entries
+
+//@ func (*Scanner).logThroughput
+//@ props C16
+//@ may panic
+//@ modifies nothing
+//@ frame-trusted the progress logger reads the scanner's counters and writes log lines only
